@@ -92,6 +92,8 @@ type VerifDsObs struct {
 	DetFound    bool        `json:"detfound"`   // GetDatasetDetails
 	DetItems    int64       `json:"detitems"`   //   its items
 	DetDeleted  bool        `json:"detdeleted"` //   its deleted flag
+	DetName     string      `json:"detname"`    //   its name property
+	DetID       string      `json:"detid"`      //   local part of its id
 	Distinct    int         `json:"distinct"`   // distinct entity ids in the dataset's own change feed
 	Changes     int         `json:"changes"`    // entries in the dataset's own change feed
 	LatestCount int         `json:"latestcount"`
@@ -345,6 +347,8 @@ func verifDetails(h *verifHub, names []string) (oo VerifOpObs) {
 			m := verifMetaOf(h.store, ent)
 			d.DetItems = m.Items
 			d.DetDeleted = m.Deleted
+			d.DetName = m.Name
+			d.DetID = m.ID
 		}
 		if ds := h.dsm.GetDataset(n); ds != nil {
 			d.Exists = true
